@@ -277,7 +277,7 @@ func (x *Exec) load(s *State, lv *LValue) (*Term, error) {
 	case lvElem:
 		h := x.heapGet(s, x.elemKey(lv.Typ), SArr(SInt, SArr(SInt, x.sortOf(lv.Typ))))
 		x.loadBound = x.boundOf(s, x.elemKey(lv.Typ))
-		return Select(Select(h, slArr(lv.Slice)), IAdd(slOff(lv.Slice), lv.Idx)), nil
+		return x.eng.Elem(Select(h, slArr(lv.Slice)), slOff(lv.Slice), lv.Idx), nil
 	case lvArrElem:
 		b, err := x.load(s, lv.Base)
 		if err != nil {
